@@ -11,11 +11,11 @@ import (
 func init() {
 	Register(&Property{
 		ID:    "C18",
-		Floor: 26,
-		Clauses: "processGoAway always removes the conn from the pool (MarkDead) and calls setGoAway with the frame; cc.goAway is written only there (never reset) with cc.mu held; " +
-			"isUsableLocked returns false whenever goAway != nil, idleStateLocked needs isUsableLocked (only exception: never-used closed conn), awaitOpenSlotForStreamLocked returns an error when the conn is closed or cannot take a request, and addStreamLocked runs only after it returned nil — so no stream is opened after GOAWAY; " +
+		Floor: 33,
+		Clauses: "processGoAway always removes the conn from the pool (MarkDead) and calls setGoAway with the frame; cc.goAway is written hcOnly there (never reset) with cc.mu held; " +
+			"isUsableLocked returns false whenever goAway != nil, idleStateLocked needs isUsableLocked (hcOnly exception: never-used closed conn), awaitOpenSlotForStreamLocked returns an error when the conn is closed or cannot take a request, and addStreamLocked runs hcOnly after it returned nil — so no stream is opened after GOAWAY; " +
 			"setGoAway: streams with ID <= LastStreamID are never aborted, every stream with ID > LastStreamID is aborted, with errClientConnGotGoAway except stream 1 under a non-NO error code; " +
-			"canRetryError(errClientConnGotGoAway) is true; shouldRetryRequest returns a request only for retryable errors and, when a body was already handed out, only with a fresh GetBody body or for errClientConnUnusable; roundTripViaPool asks the pool for a conn again on retry; " +
+			"canRetryError(errClientConnGotGoAway) is true; shouldRetryRequest returns a request hcOnly for retryable errors and, when a body was already handed out, hcOnly with a fresh GetBody body or for errClientConnUnusable; roundTripViaPool asks the pool for a conn again on retry; " +
 			"readLoop cleanup turns EOF after GOAWAY into GoAwayError and aborts the streams the peer has not closed.",
 		NotCovered: "that a retried request is sent at most once per connection over all histories; requests whose headers were never written when GOAWAY arrives; GOAWAY frames that raise LastStreamID; backoff timing; the go1.27 wrapper build.",
 		Run:        c18,
@@ -46,26 +46,26 @@ func c18(c *Ctx) {
 	c.Writers("http2.ClientConn.goAway", setGA)
 	c.Has(setGA, stGA.StoredIs("$0"))
 	c.Count(setGA, stGA, 1, 1)
-	c.HeldAt(setGA, Union(stGA, Calls(abort)), "$r.mu", []string{c17Lock}, []string{c17Unlock})
+	c.HeldAt(setGA, Union(stGA, Calls(abort)), "$r.mu", []string{hcC17Lock}, []string{hcC17Unlock})
 
 	// ---- no new streams afterwards ------------------------------------------------
 	c.Reject(usable, Calls("(*http2.ClientConn).tooIdleLocked"), "$r.goAway != nil")
-	c17OnlyTrueVia(c, usable, "(*http2.ClientConn).tooIdleLocked")
+	hcC17OnlyTrueVia(c, usable, "(*http2.ClientConn).tooIdleLocked")
 	stCan := Stores("http2.clientConnIdleState.canTakeNewRequest")
-	c17IdleState(c, idle, stCan)
+	hcC17IdleState(c, idle, stCan)
 	c.Guard(idle, stCan.StoredIs("true"), "$r.nextStreamID == 1", "$r.closed")
 	c.Reject(await, RetOK(), "$r.closed")
 	c.Reject(await, RetOK(), "!canTakeNewRequestLocked($r)")
-	c.NoPathWithout(await, Calls("(*sync.Cond).Wait"), RetOK(), Calls("(*http2.ClientConn).canTakeNewRequestLocked"))
+	c.HcNoPathWithout(await, Calls("(*sync.Cond).Wait"), RetOK(), Calls("(*http2.ClientConn).canTakeNewRequestLocked"))
 	c.Reject(wreq, Calls(addStrm), "awaitOpenSlotForStreamLocked($r.cc,$r) != nil")
 	c.Callers(addStrm, wreq)
 
 	// ---- classifying the in-flight streams ------------------------------------------
 	aborts := Calls(abort)
 	c.Guard(setGA, aborts, "next(range($r.streams))#1 > $0.LastStreamID")
-	c.PassThroughUnless(setGA, c.Edge("next(range($r.streams))#1 > $0.LastStreamID"), aborts, NoEdges())
-	c18AbortsNextStream(c, setGA, aborts)
-	other := aborts.Where("error is not errClientConnGotGoAway", func(in ssa.Instruction) bool { return Term(CallArg(in, 1)) != gaErr })
+	c.HcPassThroughUnless(setGA, c.Edge("next(range($r.streams))#1 > $0.LastStreamID"), aborts, HcNoEdges())
+	hcC18AbortsNextStream(c, setGA, aborts)
+	other := aborts.Where("error is not errClientConnGotGoAway", func(in ssa.Instruction) bool { return Term(HcCallArg(in, 1)) != gaErr })
 	c.Has(setGA, aborts.ArgIs(1, gaErr))
 	c.Guard(setGA, other, "next(range($r.streams))#1 == 1", "$r.goAway.ErrCode != 0")
 
@@ -75,9 +75,9 @@ func c18(c *Ctx) {
 		return Term(in.(*ssa.Return).Results[0]) != "true"
 	}), "$0 == "+gaErr)
 	c.Reject(should, RetOK(), "!canRetryError($1)")
-	c18ReplayOnly(c, should)
+	hcC18ReplayOnly(c, should)
 	c.Callers(should, viaPool)
-	c.NoPathWithout(viaPool, Calls(should), Calls("(*http2.ClientConn).RoundTrip"), Calls(".GetClientConn"))
+	c.HcNoPathWithout(viaPool, Calls(should), Calls("(*http2.ClientConn).RoundTrip"), Calls(".GetClientConn"))
 	c.Writers("http2.clientStream.abortErr", abort)
 	c.Has(abort+"$1", Stores("http2.clientStream.abortErr"))
 
@@ -85,12 +85,12 @@ func c18(c *Ctx) {
 	c.Has(cleanup, Stores("http2.GoAwayError.LastStreamID").StoredIs("$r.cc.goAway.LastStreamID"))
 	c.Guard(cleanup, Stores("http2.GoAwayError.LastStreamID"), "$r.cc.goAway != nil", "isEOFOrNetReadError($r.cc.readerErr)")
 	c.Has(cleanup, aborts)
-	c.HeldAt(cleanup, aborts, "$r.cc.mu", []string{c17Lock}, []string{c17Unlock})
+	c.HeldAt(cleanup, aborts, "$r.cc.mu", []string{hcC17Lock}, []string{hcC17Unlock})
 }
 
-// c18AbortsNextStream: every abort in setGoAway targets the stream of the
+// hcC18AbortsNextStream: every abort in setGoAway targets the stream of the
 // current iteration of the range over cc.streams.
-func c18AbortsNextStream(c *Ctx, fnName string, aborts Sel) {
+func hcC18AbortsNextStream(c *Ctx, fnName string, aborts Sel) {
 	rule := "value-is"
 	construct := fnName + ": aborts act on the stream whose ID was compared with LastStreamID"
 	fn := c.MustFn(fnName)
@@ -103,21 +103,21 @@ func c18AbortsNextStream(c *Ctx, fnName string, aborts Sel) {
 		return
 	}
 	for _, in := range sites {
-		if Term(CallArg(in, 0)) != "next(range($r.streams))#2" {
-			c.Fail(rule, construct, InstrPos(in), "aborts "+Term(CallArg(in, 0)))
+		if Term(HcCallArg(in, 0)) != "next(range($r.streams))#2" {
+			c.Fail(rule, construct, InstrPos(in), "aborts "+Term(HcCallArg(in, 0)))
 			return
 		}
 	}
 	c.OK(rule, construct, fmt.Sprintf("%d site(s)", len(sites)))
 }
 
-// c18ReplayOnly: shouldRetryRequest hands back the original request (its
-// body may have been consumed) only when there was no body or nothing was
+// hcC18ReplayOnly: shouldRetryRequest hands back the original request (its
+// body may have been consumed) hcOnly when there was no body or nothing was
 // written (errClientConnUnusable); otherwise the request is a copy with a
 // GetBody body.
-func c18ReplayOnly(c *Ctx, fnName string) {
+func hcC18ReplayOnly(c *Ctx, fnName string) {
 	rule := "replay-guard"
-	construct := fnName + ": the original request is reused only without body or for errClientConnUnusable; else GetBody copy"
+	construct := fnName + ": the original request is reused hcOnly without body or for errClientConnUnusable; else GetBody copy"
 	fn := c.MustFn(fnName)
 	if fn == nil {
 		return
@@ -127,15 +127,15 @@ func c18ReplayOnly(c *Ctx, fnName string) {
 		r := in.(*ssa.Return)
 		n++
 		if Term(r.Results[0]) == "$0" {
-			noBody := !c.FactsHold(in, "$0.Body != nil") || !c.FactsHold(in, "$0.Body != net/http.NoBody")
-			unusable := c.FactsHold(in, "$1 == http2.errClientConnUnusable")
+			noBody := !c.HcFactsHold(in, "$0.Body != nil") || !c.HcFactsHold(in, "$0.Body != net/http.NoBody")
+			unusable := c.HcFactsHold(in, "$1 == http2.errClientConnUnusable")
 			if !noBody && !unusable {
 				c.Fail(rule, construct, InstrPos(in), "returns the original request although a body exists and the error is not errClientConnUnusable")
 				return
 			}
 			continue
 		}
-		if !c.FactsHold(in, "$0.GetBody != nil", "call($0.GetBody)()#1 == nil") {
+		if !c.HcFactsHold(in, "$0.GetBody != nil", "call($0.GetBody)()#1 == nil") {
 			c.Fail(rule, construct, InstrPos(in), "returns `"+Term(r.Results[0])+"` without a successful GetBody")
 			return
 		}
